@@ -13,10 +13,13 @@ branch by branch, in the order of the `isinstance` tests:
                                        return frozendict({k: freeze_value(v) for k, v in value.items()})
     if isinstance(value, AbstractSet) and not isinstance(value, frozenset):
                                        return frozenset(freeze_value(e) for e in value)
+    if isinstance(value, AbstractSequence) and not isinstance(value, bytes):
+                                       return tuple(freeze_value(e) for e in value)
     return value
 
 (the `tuple` alternative of the fourth test is /repo fix 3900daf: tuples are entered, so a list
-placed inside a tuple is frozen too; the last two tests are /repo fix 0014d04, finding F37).
+placed inside a tuple is frozen too; the fifth and sixth tests are /repo fix 0014d04, finding F37;
+the seventh is /repo fix ab97679).
 `frozendict` (the pure-Python implementation installed here) is a subclass of `dict`, so a
 frozendict takes the `dict` branch (its values are frozen again); `frozenset` is not a `set`: it
 is returned as it is, *without* looking inside — its elements are hashable, like dictionary keys,
@@ -24,7 +27,7 @@ which are never touched either.
 
 The kinds are kinds of *behaviour under `isinstance`*, so subclasses of the builtins belong to
 the kind of their base (`OrderedDict`, `defaultdict`, `Counter` are `dict`; a namedtuple is a
-`tuple`; a list subclass is a `list`).  Two kinds stand for the containers that are NOT
+`tuple`; a list subclass is a `list`).  Three kinds stand for the containers that are NOT
 instances of any builtin container and nevertheless hold, or give access to, changeable content:
 
   * `setlike` — a `collections.abc.Set` that is neither a `set` nor a `frozenset`: the
@@ -34,9 +37,12 @@ instances of any builtin container and nevertheless hold, or give access to, cha
   * `maplike` — a `collections.abc.Mapping` that is not a `dict`: `types.MappingProxyType`
     (a read-only *view* of a dict somebody else can still write to), `collections.UserDict`,
     `collections.ChainMap`, a user class deriving from `collections.abc.Mapping`.
+  * `seqlike` — a `collections.abc.Sequence` that is neither a `list` nor a `tuple` (nor `str` /
+    `bytes`, which are atoms): `collections.UserList`, `collections.deque`, a user class deriving
+    from `collections.abc.Sequence` (MNTM's annotation admits any `Sequence` of results).
 
-Both are mutable-or-aliasing: `isFrozen` is false of them.  Until fix 0014d04 `freeze_value`
-returned them as they were (`freezeOld` in Props/C18.lean), and this model hid the defect by
+All three are mutable-or-aliasing: `isFrozen` is false of them.  Until fixes 0014d04 / ab97679
+`freeze_value` returned them as they were (`freezeOld` in Props/C18.lean), and this model hid the defect by
 lumping them into `other`.  `other` now stands ONLY for genuinely immutable atoms (None, floats,
 bools seen as such, bytes, …): objects with no content that can change.
 -/
@@ -60,6 +66,8 @@ inductive PyVal
   | setlike (xs : List PyVal)
   /-- a `collections.abc.Mapping` that is not a `dict` (mappingproxy, UserDict, ChainMap, …) -/
   | maplike (kvs : List (PyVal × PyVal))
+  /-- a `collections.abc.Sequence` that is neither `list` nor `tuple` nor `str` / `bytes` (UserList, deque, …) -/
+  | seqlike (xs : List PyVal)
   deriving Repr, Inhabited
 
 namespace PyVal
@@ -76,6 +84,7 @@ def freeze : PyVal → PyVal
   | tuple xs => tuple (freezeList xs)                -- isinstance(value, (list, tuple))
   | maplike kvs => frozendict (freezeKVs kvs)        -- isinstance(value, AbstractMapping)   (fix 0014d04)
   | setlike xs => frozenset (freezeList xs)          -- AbstractSet and not frozenset        (fix 0014d04)
+  | seqlike xs => tuple (freezeList xs)              -- AbstractSequence and not bytes       (fix ab97679)
   | frozenset xs => frozenset xs
   | other t => other t
 /-- `freeze_value(e) for e in value`. -/
@@ -89,8 +98,8 @@ def freezeKVs : List (PyVal × PyVal) → List (PyVal × PyVal)
 end
 
 mutual
-/-- No `dict`, `set` or `list` object, and no set-like / mapping-like look-alike of one (a view,
-a proxy, a user container), anywhere inside (keys included): the value cannot be changed through
+/-- No `dict`, `set` or `list` object, and no set-like / mapping-like / sequence-like look-alike of
+one (a view, a proxy, a user container), anywhere inside (keys included): the value cannot be changed through
 any reference to it or to a part of it. -/
 def isFrozen : PyVal → Bool
   | str _ => true
@@ -101,6 +110,7 @@ def isFrozen : PyVal → Bool
   | list _ => false
   | setlike _ => false
   | maplike _ => false
+  | seqlike _ => false
   | frozendict kvs => isFrozenKVs kvs
   | frozenset xs => isFrozenList xs
   | tuple xs => isFrozenList xs
@@ -135,6 +145,7 @@ def supported : PyVal → Bool
   | tuple xs => supportedList xs
   | setlike xs => supportedList xs        -- elements need not be hashable: `{1: [2]}.items()`
   | maplike kvs => supportedKVs kvs
+  | seqlike xs => supportedList xs
 def supportedList : List PyVal → Bool
   | [] => true
   | x :: xs => supported x && supportedList xs
@@ -159,6 +170,7 @@ def norm : PyVal → PyVal
   | tuple xs => tuple (normList xs)
   | setlike xs => frozenset (normList xs)
   | maplike kvs => frozendict (normKVs kvs)
+  | seqlike xs => tuple (normList xs)
 def normList : List PyVal → List PyVal
   | [] => []
   | x :: xs => norm x :: normList xs
